@@ -25,7 +25,9 @@ LEVEL_TEXT = ("PARTIAL. Proved for every ciphertext, positive chunk size and eve
 LEVEL_NOTE = ("Lean kernel + standard axioms; encoder abstract (C01/C36 are about the real one); hand-written model; the harness shrinks "
               "CHKCiphertextFetcher.CHUNK_SIZE for most scenarios so that small files have many interruption points (one scenario per "
               "run uses the real 50 KiB).")
-RULE = ("twin grids at sizes 0, 1, 54, 55, 56, 57 and around segment boundaries for three fixed parameter sets (+ random ones): "
+RULE = ("re-upload scenarios (6 fixed + random): twin grids, one reused production Helper; upload, lose share numbers (one / some / "
+        "below k / all / none) on both grids, upload again, up to three rounds; share sets, share bytes, caps and downloads compared, "
+        "present/need answers compared with the memoryless model over the grid history; twin grids at sizes 0, 1, 54, 55, 56, 57 and around segment boundaries for three fixed parameter sets (+ random ones): "
         "cap string, verify-cap, shares and which uploader was picked, literal uploads contact nobody; function-level histories of remote_read_encrypted on the real client reader (25 fixed + random); a fixed corpus first (a 217145-byte file, production 50 KiB chunk sizes on helper and client side, helper upload cut "
         "after every chunk 0..last and after the complete fetch, by error / disconnect / helper restart, a resume of a resume, and a "
         "7-chunk variant with both chunk sizes 1000), each resumed and compared with the direct upload (caps, shares, downloaded "
@@ -361,6 +363,11 @@ def run_scenario(ctx, s):
                 if r3.get_uri() != rd.get_uri():
                     ctx.violation("read-cap after re-upload of a damaged file differs from the direct upload's", case, "reupload-readcap-differs")
                 got3 = {b: share_data(p) for (a, b, p) in g.share_files(si)}
+                if present3 and len(set(shn)) < s.n:
+                    ctx.violation("after shares were deleted the helper still reported the file as already present: share number(s) %s "
+                                  "exist on no server and were not restored" % [x for x in range(s.n) if x not in shn],
+                                  dict(case, shnums_before_reupload=sorted(set(shn)), shnums_after=sorted(got3)),
+                                  "helper-reported-present-but-shares-missing")
                 if len(set(shn)) < s.n:
                     ctx.count("reupload-after-delete:%s" % ("present" if present3 else "uploaded"))
                     if not present3 and got3 != ref_shares:
@@ -724,6 +731,156 @@ def reader_probe(ctx, rng, n):
     ctx.compare("client-side reader: bytes returned by remote_read_encrypted for a sequence of (offset, length)", cases, wants, ctx.model(lines))
 
 
+# ----------------------------------------------------------------------------- re-upload through one long-lived helper
+
+def reupload_corpus():
+    res = []
+    for j, (k, n, srv, lose) in enumerate([(2, 3, 3, "one"), (3, 4, 4, "below-k"), (1, 2, 2, "one"), (2, 4, 5, "all"),
+                                           (3, 5, 4, "some"), (2, 3, 3, "none")]):
+        s = Scenario()
+        s.k, s.n, s.num_servers, s.maxseg, s.size, s.lose, s.rounds = k, n, srv, 128, 300, lose, 2
+        s.policy, s.seed, s.corpus = "fifo", 4480 + j, True
+        res.append(s)
+    return res
+
+
+def gen_reupload(rng):
+    s = Scenario()
+    s.n = rng.choice([2, 3, 4, 5])
+    s.k = rng.randrange(1, s.n + 1)
+    s.num_servers = rng.randrange(1, 7)
+    s.maxseg = rng.choice([64, 128, 131072])
+    s.size = rng.choice([56, 100, 300, 700])
+    s.lose = rng.choice(["one", "some", "below-k", "all", "none"])
+    s.rounds = rng.choice([1, 2, 2, 3])
+    s.policy = rng.choice(["random", "random", "fifo", "lifo"])
+    s.seed = rng.randrange(1 << 30)
+    return s
+
+
+def reupload_dict(s):
+    return dict(reupload=True, k=s.k, n=s.n, num_servers=s.num_servers, maxseg=s.maxseg, size=s.size, lose=s.lose, rounds=s.rounds,
+                policy=s.policy, seed=s.seed)
+
+
+def reupload_from(d):
+    s = Scenario()
+    s.__dict__.update({k: d[k] for k in ("k", "n", "num_servers", "maxseg", "size", "lose", "rounds", "policy", "seed")})
+    return s
+
+
+def run_reupload(ctx, s):
+    """Two identical grids; the file is uploaded directly on one and through ONE long-lived production Helper on the other; then,
+    `rounds` times: the same share numbers disappear from both grids and the same file is uploaded again on both.  After every
+    re-upload both grids must hold the same shares and the file must download from both."""
+    import random
+    import grid
+    from allmydata.immutable import upload
+    from allmydata import uri as _uri
+    from allmydata.util.consumer import MemoryConsumer
+    case = reupload_dict(s)
+    data = bytes((i * 19 + s.seed) % 251 for i in range(s.size))
+    conv = b"c44-convergence!"
+    prng = random.Random("c44re-%d" % s.seed)
+    events, queries = [], []
+
+    def download(rt, c, cap):
+        saved = rt.policy
+        rt.policy = "fifo"
+        try:
+            mc = rt.wait(c.create_node_from_uri(cap).read(MemoryConsumer(), 0, s.size), max_steps=300000)
+            return b"".join(mc.chunks)
+        except grid.Stuck:
+            return None
+        except Exception as e:
+            return "download failed: %s" % type(e).__name__
+        finally:
+            rt.policy = saved
+    with grid.Runtime(seed=s.seed, policy=s.policy) as rt:
+        gH = grid.Grid(grid.fresh_dir("c44reH"), rt, num_servers=s.num_servers, k=s.k, happy=1, n=s.n, max_segment_size=s.maxseg)
+        gD = grid.Grid(grid.fresh_dir("c44reD"), rt, num_servers=s.num_servers, k=s.k, happy=1, n=s.n, max_segment_size=s.maxseg)
+        try:
+            cH, cD = gH.clients[0], gD.clients[0]
+            helper, w = attach_helper(rt, gH, cH, os.path.join(gH.basedir, "helper"))     # one helper for the whole scenario
+            known = set()
+
+            def note_grid(si):
+                now = {(a, b) for (a, b, p) in gH.share_files(si)}
+                for (a, b) in sorted(known - now):
+                    events.append("l.%d.%d" % (a, b))
+                for (a, b) in sorted(now - known):
+                    events.append("p.%d.%d" % (a, b))
+                known.clear()
+                known.update(now)
+            rD = rt.wait(cD.upload(upload.Data(data, convergence=conv)))
+            si = _uri.from_string(rD.get_uri()).get_storage_index()
+            ref = {b: share_data(p) for (a, b, p) in gD.share_files(si)}
+            for rnd in range(s.rounds + 1):
+                if rnd > 0:
+                    # the same share numbers disappear from both grids
+                    allsh = sorted(ref)
+                    if s.lose == "none":
+                        victims = []
+                    elif s.lose == "one":
+                        victims = [prng.choice(allsh)]
+                    elif s.lose == "all":
+                        victims = allsh
+                    elif s.lose == "below-k":
+                        victims = prng.sample(allsh, min(len(allsh), len(allsh) - s.k + 1))
+                    else:
+                        victims = [x for x in allsh if prng.random() < 0.5]
+                    for g in (gH, gD):
+                        for (a, b, p) in g.share_files(si):
+                            if b in victims:
+                                os.unlink(p)
+                    case["lost_round_%d" % rnd] = victims
+                    rD = rt.wait(cD.upload(upload.Data(data, convergence=conv)))
+                    rt.settle()
+                note_grid(si)
+                before = sorted({b for (a, b, p) in gH.share_files(si)})
+                c0 = helper._counters["chk_upload_helper.upload_already_present"]
+                rH = rt.wait(cH.upload(upload.Data(data, convergence=conv)))
+                rt.settle()
+                present = helper._counters["chk_upload_helper.upload_already_present"] - c0
+                events.append("q")
+                queries.append("present" if present else "need")
+                note_grid(si)
+                shH = {}
+                for (a, b, p) in gH.share_files(si):
+                    shH.setdefault(b, []).append(share_data(p))
+                shD = {}
+                for (a, b, p) in gD.share_files(si):
+                    shD.setdefault(b, []).append(share_data(p))
+                cs = dict(case, round=rnd, helper_grid_before=before, helper_grid_after=sorted(shH), direct_grid_after=sorted(shD),
+                          reported_present=bool(present))
+                what = "first upload" if rnd == 0 else "re-upload %d after losing share numbers %s" % (rnd, case["lost_round_%d" % rnd])
+                # ---- monitor (statement level): helper-assisted == direct
+                if rH.get_uri() != rD.get_uri() or rH.get_verifycapstr() != rD.get_verifycapstr():
+                    ctx.violation("%s: caps differ between the helper and the direct path" % what, cs, "reupload-caps-differ")
+                if sorted(shH) != sorted(shD):
+                    ctx.violation("%s: the helper grid holds share numbers %s, the direct-upload twin %s (reported already present: %s)" % (
+                                  what, sorted(shH), sorted(shD), bool(present)), cs,
+                                  "helper-reupload-grid-state-differs-from-direct:%s" % ("present" if present else "uploaded"))
+                if present and len(before) < s.n:
+                    ctx.violation("%s: the helper reported the file as already present although only share numbers %s of N=%d existed" % (
+                                  what, before, s.n), cs, "helper-reported-present-but-shares-missing")
+                for name, sh in (("helper", shH), ("direct", shD)):
+                    bad = sorted(b for b, bodies in sh.items() if any(x != ref.get(b) for x in bodies))
+                    if bad:
+                        ctx.violation("%s: share(s) %s on the %s grid differ from the correct bytes" % (what, bad, name), cs, "reupload-share-bytes-differ:" + name)
+                backD = download(rt, cD, rD.get_uri())
+                backH = download(rt, cH, rH.get_uri())
+                if backD is not None and backD == data and backH is not None and backH != data:
+                    ctx.violation("%s: the file downloads from the direct-upload grid but not from the helper grid (%s; %d distinct shares, k=%d)" % (
+                                  what, backH if isinstance(backH, str) else "wrong bytes", len(shH), s.k), cs, "helper-reupload-not-downloadable")
+                ctx.count("reupload:%s:round%d:%s" % (s.lose, min(rnd, 1), "present" if present else "uploaded"))
+            ctx.case(repr(sorted(case.items())))
+            return case, "hist %d %s" % (s.n, ",".join(events)), ",".join(queries)
+        finally:
+            gH.close()
+            gD.close()
+
+
 def common_infra(msg):
     import common
     return common.InfraError(msg)
@@ -738,6 +895,10 @@ def run(ctx):
     except Exception:
         pass
     pre = []
+    if ctx.replay and isinstance(ctx.replay.get("case"), dict) and ctx.replay["case"].get("reupload"):
+        case, line, want = run_reupload(ctx, reupload_from(ctx.replay["case"]))
+        ctx.compare("already-present answers over a history of the grid (one long-lived helper)", [case], [want], ctx.model([line]))
+        return
     if ctx.replay and isinstance(ctx.replay.get("case"), dict) and ctx.replay["case"].get("probe") == "size":
         cs = ctx.replay["case"]
         size_probe(ctx, [(cs["k"], cs["n"], cs["num_servers"], cs["maxseg"], cs["seed"])], "replay")
@@ -774,6 +935,19 @@ def run(ctx):
         import random
         reader_probe(ctx, random.Random("c44-reader-corpus"), 25)        # fixed
         size_probe(ctx, SIZE_CORPUS, "corpus")                           # fixed: LIT/CHK boundary and segment boundaries
+        relist = reupload_corpus()                                       # fixed: lose shares, re-upload through the same helper
+        if not corpus_only:
+            rr = ctx.subrng("reupload")
+            relist += [gen_reupload(rr) for _ in range(ctx.budget(14, 800))]
+        rl, rw, rc = [], [], []
+        for rs in relist:
+            if len(ctx.violations) >= 50:
+                break
+            case, line, want = run_reupload(ctx, rs)
+            rl.append(line)
+            rw.append(want)
+            rc.append(case)
+        ctx.compare("already-present answers over a history of the grid (one long-lived helper)", rc, rw, ctx.model(rl))
         if not corpus_only:
             zr = ctx.subrng("sizes")
             size_probe(ctx, [(kk, nn, zr.randrange(1, 6), zr.choice([56, 64, 100, 128, 1000]), zr.randrange(1 << 30))
